@@ -386,6 +386,7 @@ func calleeName(pi *pkgInfo, c *ast.CallExpr) string {
 // classify the use of the expression rooted at id: climbs through field selections, indexing, slicing, derefs
 func classify(pi *pkgInfo, stack []ast.Node, id *ast.Ident) (kind, detail string) {
 	var cur ast.Node = id
+	indexed := false
 	i := len(stack) - 2 // stack[len-1] == id
 	for ; i >= 0; i-- {
 		p := stack[i]
@@ -405,6 +406,7 @@ func classify(pi *pkgInfo, stack []ast.Node, id *ast.Ident) (kind, detail string
 		case *ast.IndexExpr:
 			if x.X == cur {
 				cur = p
+				indexed = true
 				continue
 			}
 			return "read", ""
@@ -424,11 +426,41 @@ func classify(pi *pkgInfo, stack []ast.Node, id *ast.Ident) (kind, detail string
 		return "read", ""
 	}
 	top := cur
+	// the variable itself (not an element looked up in it) handed on as a value: stored in a field or a literal, returned,
+	// assigned to something else - a reference to package-level state escapes into objects the caller owns
+	escapes := func() bool {
+		if indexed {
+			return false
+		}
+		e, ok := top.(ast.Expr)
+		if !ok {
+			return false
+		}
+		tv, ok := pi.info.Types[e]
+		return ok && tv.Type != nil && refLike(tv.Type)
+	}
 	switch p := stack[i].(type) {
+	case *ast.KeyValueExpr:
+		if p.Value == top && escapes() {
+			return "escape", "literal"
+		}
+	case *ast.CompositeLit:
+		if escapes() {
+			return "escape", "literal"
+		}
+	case *ast.ReturnStmt:
+		if escapes() {
+			return "escape", "return"
+		}
 	case *ast.AssignStmt:
 		for _, l := range p.Lhs {
 			if l == top {
 				return "write", ""
+			}
+		}
+		for _, rv := range p.Rhs {
+			if rv == top && escapes() {
+				return "escape", "assign"
 			}
 		}
 	case *ast.IncDecStmt:
